@@ -1504,3 +1504,4 @@ def shrink(case):
 
 NOT_READY = False
 RULE = RULE + ' Fourth session: tree_to_dot handed non-root nodes; parents with 12 and 104 children for all four renderers; the labels a callable edge_attr returns are checked edge by edge.'
+RULE = RULE + ' Fifth session: style objects made for other icons and re-assigned before use.'
